@@ -329,7 +329,8 @@ def det_to_coq(c, r):
     d1 = cout_sec(r["d1"])
     d2 = cout_sec(r["d2"]) if "d2" in r else d1
     if d1 is None or d2 is None: return None
-    return f"({s[0]}, {s[1]}, {d1}, {d2}, {cstr(r['q1'])}, {cstr(r.get('q2', ''))})"
+    return (f"(({s[0]} : list (str * ddef)), {s[1]}, ({d1} : outcome plainsec), ({d2} : outcome plainsec), "
+            f"({cstr(r['q1'])} : str), ({cstr(r.get('q2', ''))} : str))")
 
 
 def walk_defs(d):
@@ -504,7 +505,8 @@ def hist_to_coq(c, r):
     if not all(isinstance(x, str) for x in r["state"]["cond"]): return None
     d1 = cout_sec(r["d1"])
     if d1 is None: return None
-    return f"({clist(ds)}, {clist(cstr(x) for x in r['state']['cond'])}, {d1}, {cstr(r['qt'])}, {cstr(r.get('qr', ''))})"
+    return (f"(({clist(ds)} : list (str * det unit)), ({clist(cstr(x) for x in r['state']['cond'])} : list str), "
+            f"({d1} : outcome plainsec), ({cstr(r['qt'])} : str), ({cstr(r.get('qr', ''))} : str))")
 
 
 def parts_bs_adjacent(parts):
@@ -677,9 +679,11 @@ def doc_to_coq(c, r):
             "type": 10, "rules": 11, "timespan": 12, "group-by": 13, "aliases": 14, "generate": 15, "condition": 16}
     sub = r.get("sub", {"shapes": [], "custom": [], "flag": False, "keys": []})
     sc = {k: 100 + i for i, k in enumerate(sub["custom"])}
-    subt = (f"({clist(str(x) for x in sub['shapes'])}, {clist(str(sc[k]) for k in sub['custom'])}, {cbool(sub['flag'])}, "
-            f"{clist(str(sc.get(k, SUBK.get(k, 999))) for k in sub['keys'])})")
-    return f"({kind}, {shapes}, {custom}, {keys}, {subt}, {j1}, {j2}, {jy}, {cstr(r['q1'])}, {cstr(r.get('q2', ''))}, {cstr(r.get('qy', ''))})"
+    def ln(x): return f"({x} : list N)"          # empty lists need their type when the case is the first of a shard
+    subt = (f"({ln(clist(str(x) for x in sub['shapes']))}, {ln(clist(str(sc[k]) for k in sub['custom']))}, {cbool(sub['flag'])}, "
+            f"{ln(clist(str(sc.get(k, SUBK.get(k, 999))) for k in sub['keys']))})")
+    return (f"({kind}, ({shapes} : list (N * N)), {ln(custom)}, {ln(keys)}, {subt}, ({j1} : outcome str), ({j2} : outcome str), "
+            f"({jy} : outcome str), {ln(cstr(r['q1']))}, {ln(cstr(r.get('q2', '')))}, {ln(cstr(r.get('qy', '')))})")
 
 
 def doc_strings(x):
